@@ -236,6 +236,17 @@ def main(tier, seed):
             if fm:
                 pr = [(o, t) for o, t in pairs(K, small, fm if K != "epoch" else eager(fy, a, fm, b), 12 * a + b, ctx) if mid_ok(K, fm(o, 12 * a))]
                 tasks.append(("add", (bindir, "C04", K, ["%+dy" % a, "%+dmo" % b], pr, "compose-y-mo")))
+            if K in ("ymd", "ymcw", "ywd", "yd"):
+                # a day or week step behind the year (month) step counts from the clamped date
+                nd = rng.choice([1, -1]) * rng.choice([1, 1, 2, 7, 30])
+                u, per = rng.choice([("d", 1), ("d", 1), ("w", 7)])
+                f1, a1, d1 = (fy, a, "%+dy" % a) if not fm or rng.random() < .5 else (fm, b, "%+dmo" % b)
+                pr = []
+                for o in small:
+                    m = f1(o, a1)
+                    if m is not None and dur.in_range(m) and dur.in_range(m + nd * per):
+                        pr.append((o, m + nd * per))
+                tasks.append(("add", (bindir, "C04", K, [d1, "%+d%s" % (nd, u)], pr, "then-" + u)))
     for _ in range(300 if quick else 5000):
         o = rng.choice(ymd_days if rng.random() < .8 else rnd)
         tasks.append(("dseq", (bindir, o, rng.choice([1, 1, 1, 2, 3, 5, 12, 13]), rng.randrange(2, 60))))
@@ -278,7 +289,7 @@ def main(tier, seed):
                 "the oracle (year/month moved by exactly N, day | weekday-count | business-day index | ISO week | "
                 "day-of-year kept and clamped); start days: dom in {1,15,28..31} of every month, ymcw count>=4, "
                 "ywd week>=52, yd Dec 30/31, bizda index>=19, plus random; N months +-%s, quarters +-%s, years "
-                "+-%s, random; two-step compositions in one invocation; dseq A Nmo B sequences, also anchored on B (--compute-from-last); date-times in a zone's "
+                "+-%s, random; two-step compositions in one invocation, a day or week step behind a month/year step (it counts from the clamped date); dseq A Nmo B sequences, also anchored on B (--compute-from-last); date-times in a zone's "
                 "wall clock (dadd --from-zone Z --zone Z, 6 zones, operand on stdin lines and as the argument): the wall-clock "
                 "date moves by N months/years (clamped), the time of day stays, judged where both readings exist exactly once. "
                 "distinct_nontrivial = distinct (calendar, unit tag, sign, carry class, weekday)" %
